@@ -31,7 +31,7 @@ def check_c18(ctx):
     known_here = [k for k in known if k["property"] == "C18"]
     base = 40000 if ctx.tier == "quick" else 3000000
     results = []
-    for i, (fl, frac) in enumerate([("tsanhook", 1.0), ("tsanhook_o0", 0.25)]):
+    for i, (fl, frac) in enumerate([("tsanhook", 1.0), ("tsanhook_o0", 0.25), ("tsanhook_w32", 0.25)]):
         d = props.build_flavour(ctx, fl, targets=("thrsim",))
         out = os.path.join(ctx.B, "out", "C18-%s-%d.json" % (fl, os.getpid()))
         os.makedirs(os.path.dirname(out), exist_ok=True)
@@ -54,7 +54,7 @@ def check_c18(ctx):
     extra = {
         "scheduler": {"context_switches": st.get("switches", 0), "instrumented_accesses": st.get("accesses", 0), "accesses_checked_by_race_monitor": st.get("recorded", 0),
                       "distinct_interleavings_measure": "hash of the (task, accesses-run) segment sequence of a run; distinct_nontrivial counts distinct hashes"},
-        "components": {"real": "all of /repo/src compiled with the repository's flags plus -fsanitize=thread (instrumentation only; our own call-backs, not the TSan run-time), gcc -O3 and -O0",
+        "components": {"real": "all of /repo/src compiled with the repository's flags plus -fsanitize=thread (instrumentation only; our own call-backs, not the TSan run-time), gcc -O3 and -O0, and the 32-bit-word code paths (hook switch SKINNY_VERIF_64BIT=0)",
                        "simulated": "threads (coroutines under a seeded scheduler pre-empting at every instrumented access), allocator, CPUID"},
     }
     rule = ("2-4 tasks per run, three scenarios (distinct objects with free histories; one shared keyed schedule or parallel-ECB object used read-only by all tasks; concurrent init/cleanup); "
@@ -130,7 +130,7 @@ def replay(ctx, engine, fl, path):
 
 
 def prebuild(ctx):
-    for fl in ("tsanhook", "tsanhook_o0"):
+    for fl in ("tsanhook", "tsanhook_o0", "tsanhook_w32"):
         props.build_flavour(ctx, fl, targets=("thrsim",))
         print("built", fl)
     for fl in ("cthook", "cthook_o0", "cthook_clang", "cthook_w32_u0_nosimd"):
